@@ -66,10 +66,10 @@ func vThreadsScenario(warm, cached, batchBefore, perQuery bool) {
 	vreach("end")
 }
 
-func VerifC13_SameFilterWarm()        { vThreadsScenario(true, false, false, false) }
-func VerifC13_SameFilterFirstUse()    { vThreadsScenario(false, false, false, false) }
-func VerifC13_CachedFilter()          { vThreadsScenario(true, true, false, false) }
-func VerifC13_PerQueryTargets()       { vThreadsScenario(true, false, false, true) }
+func VerifC13_SameFilterWarm()     { vThreadsScenario(true, false, false, false) }
+func VerifC13_SameFilterFirstUse() { vThreadsScenario(false, false, false, false) }
+func VerifC13_CachedFilter()       { vThreadsScenario(true, true, false, false) }
+func VerifC13_PerQueryTargets()    { vThreadsScenario(true, false, false, true) }
 func VerifC13_PerQueryTargetsAfterBatch() {
 	vThreadsScenario(true, false, true, true)
 }
